@@ -23,6 +23,8 @@ pub enum Op {
     Del { node: usize, ks: usize, key: u64, level: usize },
     DelMany { node: usize, ks: usize, keys: Vec<u64>, level: usize },
     Advance(u64),
+    /// operations issued at the same instant and awaited together
+    Together(Vec<Op>),
 }
 
 #[derive(Debug, Clone)]
@@ -69,7 +71,27 @@ pub fn op_json(op: &Op) -> Value {
         Op::Del { node, ks, key, level } => json!({"del": key, "at_node": node + 1, "ks": ks, "level": level_name(*level)}),
         Op::DelMany { node, ks, keys, level } => json!({"del_many": keys, "at_node": node + 1, "ks": ks, "level": level_name(*level)}),
         Op::Advance(ms) => json!({"advance_ms": ms}),
+        Op::Together(ops) => json!({"concurrently": ops.iter().map(op_json).collect::<Vec<_>>()}),
     }
+}
+
+/// Like `gen_op`, but one time in five 2-3 operations are issued concurrently.
+pub fn gen_op_or_group(src: &mut Src, n_nodes: usize, n_ks: usize, n_keys: u64) -> Op {
+    if src.chance(1, 5) {
+        let n = 2 + src.below(2);
+        let mut ops = vec![];
+        for _ in 0..n {
+            let op = gen_op(src, n_nodes, n_ks, n_keys);
+            if !matches!(op, Op::Advance(_)) {
+                ops.push(op);
+            }
+        }
+        if ops.len() >= 2 {
+            return Op::Together(ops);
+        }
+        return ops.pop().unwrap_or(Op::Advance(0));
+    }
+    gen_op(src, n_nodes, n_ks, n_keys)
 }
 
 pub fn gen_op(src: &mut Src, n_nodes: usize, n_ks: usize, n_keys: u64) -> Op {
@@ -128,7 +150,7 @@ impl Prop for Cluster {
         let n_ks = 1 + src.below(2);
         let n_keys = 1 + src.below64(4);
         let n_ops = 1 + src.below(12);
-        let ops = (0..n_ops).map(|_| gen_op(src, nodes.len(), n_ks, n_keys)).collect();
+        let ops = (0..n_ops).map(|_| gen_op_or_group(src, nodes.len(), n_ks, n_keys)).collect();
         let lossy = *src.pick(&[0u32, 3, 6, 12]);
         let direct = (0..12).map(|_| gen_verdict(src, lossy)).collect();
         let batch = (0..8).map(|_| gen_verdict(src, lossy)).collect();
@@ -156,11 +178,13 @@ impl Prop for Cluster {
     fn rule(&self) -> &'static str {
         "2-4 real DatacakeNodes (1-2 data centres, per-node clock skew up to 10 min) with the real eventual-consistency \
          extension in one paused-time runtime; 1-12 operations put/put_many/del/del_many through the public handles at \
-         generated nodes, keyspaces, keys and consistency levels, interleaved with time advances of 0-6 s; every direct, \
+         generated nodes, keyspaces, keys and consistency levels (one step in five issues 2-3 of them concurrently), \
+         interleaved with time advances of 0-6 s; every direct, \
          batch and repair message gets a generated fate (deliver, drop request, drop reply, duplicate, delay up to 4 s); \
          then faults are cleared and 1 s + 3 repair intervals pass (every node completes a poller cycle with every peer); \
          oracle: on every node and keyspace the documents storage returns (ids, bytes, stamps) equal the LWW model \
-         computed from the operations as their origin nodes wrote them; non-trivial = >=2 origins wrote, >=1 direct or \
+         computed from the operations as their origin nodes wrote them, and the newest version of every id held \
+         anywhere (live or tombstone) was first written by the node its stamp names; non-trivial = >=2 origins wrote, >=1 direct or \
          batch message was lost, and the poller fetched something"
     }
 }
@@ -175,6 +199,11 @@ pub fn ks_name(i: usize) -> String {
 
 pub async fn run_op(nodes: &[NodeH], op: &Op) -> Option<bool> {
     match op {
+        Op::Together(ops) => {
+            let futs: Vec<_> = ops.iter().map(|o| Box::pin(run_op(nodes, o)) as std::pin::Pin<Box<dyn std::future::Future<Output = Option<bool>> + '_>>).collect();
+            futures::future::join_all(futs).await;
+            None
+        },
         Op::Put { node, ks, key, len, level: l } => {
             let data = vec![(*key as u8).wrapping_mul(31).wrapping_add(*node as u8); *len];
             Some(nodes[*node].handle.put(&ks_name(*ks), *key, data, level(*l)).await.is_ok())
@@ -195,8 +224,27 @@ pub async fn run_op(nodes: &[NodeH], op: &Op) -> Option<bool> {
     }
 }
 
+/// For every version (keyspace, id, stamp, is_tombstone): the node whose store wrote it first.
+pub fn first_writers(nodes: &[NodeH]) -> BTreeMap<(String, u64, Stamp, bool), (u64, u8)> {
+    let mut first: BTreeMap<(String, u64, Stamp, bool), (u64, u8)> = BTreeMap::new();
+    for n in nodes {
+        let g = n.store.inner.lock();
+        for ((ks, id, ts, bytes), seq) in g.log.iter().zip(g.log_seq.iter()) {
+            let e = first.entry((ks.clone(), *id, Stamp::of(*ts), bytes.is_none())).or_insert((*seq, n.id));
+            if *seq < e.0 {
+                *e = (*seq, n.id);
+            }
+        }
+    }
+    first
+}
+
 /// LWW model over what the origin nodes wrote: (keyspace, id) -> (stamp, bytes or None).
+/// An operation is what a node wrote under its own node id before any other node had that version (an origin
+/// applies locally before it replicates); a version that reached the node named in its stamp from elsewhere
+/// was issued by nobody and is not part of the model.
 pub fn lww_of_origin_writes(nodes: &[NodeH]) -> BTreeMap<(String, u64), (Stamp, Option<Vec<u8>>)> {
+    let first = first_writers(nodes);
     let mut model: BTreeMap<(String, u64), (Stamp, Option<Vec<u8>>)> = BTreeMap::new();
     for n in nodes {
         let g = n.store.inner.lock();
@@ -205,6 +253,9 @@ pub fn lww_of_origin_writes(nodes: &[NodeH]) -> BTreeMap<(String, u64), (Stamp, 
                 continue;
             }
             let s = Stamp::of(*ts);
+            if first.get(&(ks.clone(), *id, s, bytes.is_none())).map(|f| f.1) != Some(n.id) {
+                continue;
+            }
             let e = model.entry((ks.clone(), *id)).or_insert((s, bytes.clone()));
             if e.0 < s {
                 *e = (s, bytes.clone());
@@ -214,7 +265,64 @@ pub fn lww_of_origin_writes(nodes: &[NodeH]) -> BTreeMap<(String, u64), (Stamp, 
     model
 }
 
+/// The newest version of an id held anywhere in the cluster (live or tombstone) was written first by the node
+/// its stamp names: replicas store the versions origins issued and never one of their own making.
+///
+/// Why this cannot fire on correct code: an origin applies its operation locally before it tells anyone; if
+/// that local apply was refused as outdated the origin held something newer, which it keeps (no purge runs
+/// within these histories), so the refused version is not the newest one held anywhere.
+pub fn check_no_invented_versions(nodes: &[NodeH], n_ks: usize, when: &str) -> Result<(), Fail> {
+    // (keyspace, id, stamp, is_tombstone) -> (sequence number of its first successful write, node)
+    let first = first_writers(nodes);
+    let ids: BTreeSet<u8> = nodes.iter().map(|n| n.id).collect();
+    for k in 0..n_ks {
+        let name = ks_name(k);
+        // newest version per id over all nodes
+        let mut newest: BTreeMap<u64, (Stamp, bool, u8)> = BTreeMap::new();
+        for n in nodes {
+            let g = n.store.inner.lock();
+            let Some(entries) = g.data.get(&name) else { continue };
+            for (id, (ts, doc)) in entries.iter() {
+                let s = Stamp::of(*ts);
+                let e = newest.entry(*id).or_insert((s, doc.is_none(), n.id));
+                if e.0 < s {
+                    *e = (s, doc.is_none(), n.id);
+                }
+            }
+        }
+        for (id, (s, tomb, holder)) in newest {
+            if !ids.contains(&s.node) {
+                continue;
+            }
+            let Some((_, first_at)) = first.get(&(name.clone(), id, s, tomb)) else { continue };
+            if *first_at != s.node {
+                return Err(Fail {
+                    signature: "version-nobody-issued".into(),
+                    message: format!(
+                        "{when}: node {holder} keyspace {name} holds id {id} as a {} stamped {}; that version was first written by node {first_at}, \
+                         not by node {} which the stamp names, so no operation issued it; versions of this id by first writer: {:?}",
+                        if tomb { "tombstone" } else { "live document" },
+                        s.json(),
+                        s.node,
+                        first.iter().filter(|((k2, i2, ..), _)| *k2 == name && *i2 == id).map(|((_, _, s2, t), (_, at))| format!("{}{} first at node {at}", s2.json(), if *t { " DEL" } else { "" })).collect::<Vec<_>>()
+                    ),
+                });
+            }
+        }
+    }
+    Ok(())
+}
+
 pub fn check_converged(nodes: &[NodeH], n_ks: usize, when: &str) -> Result<(), Fail> {
+    check_converged_docs(nodes, n_ks, when)?;
+    // sensitivity experiments only: lets one see whether the document comparison alone catches a change
+    if std::env::var_os("VP_EXPERIMENT_DOCS_ONLY").is_some() {
+        return Ok(());
+    }
+    check_no_invented_versions(nodes, n_ks, when)
+}
+
+fn check_converged_docs(nodes: &[NodeH], n_ks: usize, when: &str) -> Result<(), Fail> {
     let model = lww_of_origin_writes(nodes);
     for k in 0..n_ks {
         let name = ks_name(k);
@@ -261,9 +369,13 @@ async fn run(case: &Case, net: e3::Net) -> Outcome {
         n.repair = case.repair.iter().copied().collect();
     }
     let mut bulk = false;
+    let mut concurrent = false;
     for op in &case.ops {
         if matches!(op, Op::PutMany { .. } | Op::DelMany { .. }) {
             bulk = true;
+        }
+        if matches!(op, Op::Together(_)) {
+            concurrent = true;
         }
         run_op(&nodes, op).await;
     }
@@ -298,6 +410,9 @@ async fn run(case: &Case, net: e3::Net) -> Outcome {
     }
     if bulk {
         labels.push("bulk");
+    }
+    if concurrent {
+        labels.push("concurrent_ops");
     }
     if case.nodes.iter().any(|(_, dc)| dc == "dc-b") {
         labels.push("two_dcs");
